@@ -1,9 +1,9 @@
-"""C25 - log ordering laws (reverse_by_depth, _rebase_merge_depth)."""
+"""C25 - log lists the requested history completely and consistently (linear range view, ordering laws, generator)."""
 from symx.runner import Ob
 
 ID = "C25"
 LG = "breezy.log"
-FUNCTIONS = [LG + ":reverse_by_depth", LG + ":_rebase_merge_depth", LG + ":_DefaultLogGenerator.iter_log_revisions",
+FUNCTIONS = [LG + ":_linear_view_revisions", LG + ":_compute_revno_str", LG + ":reverse_by_depth", LG + ":_rebase_merge_depth", LG + ":_DefaultLogGenerator.iter_log_revisions",
              LG + ":LogRevision.__init__"]
 STUBS = ["log_generator obligation: _DefaultLogGenerator built with object.__new__; its revision iterator is replaced by a "
          "stub that yields the (symbolic-depth) view in batches"]
@@ -148,11 +148,110 @@ def ob_generator(cx):
     cx.observe("shown", [lr.revno for lr in got])
 
 
+class _Rev(bytes):
+    """mainline revision number i as a revision id (symbolic i)"""
+    def __new__(cls, cx, i):
+        self = bytes.__new__(cls, b"rev")
+        self.cx, self.i = cx, i
+        return self
+
+    def __eq__(self, other):
+        return isinstance(other, _Rev) and self.cx.truth(self.i == other.i)
+
+    def __ne__(self, other):
+        return not self.__eq__(other)
+
+    def __hash__(self):
+        return 1
+
+
+def ob_linear_view(cx):
+    """_linear_view_revisions over a mainline of symbolic length: log -r A..B lists exactly revisions B down to A (A
+    included unless common ancestry is excluded), each with its own number; a start that is not a left-hand ancestor of
+    the end is reported, not silently ignored."""
+    L = cx.mod(LG)
+    E = cx.real("breezy.errors")
+    T = cx.truth
+    n = cx.int("length", 1, cx.p("maxlen"))
+    have_start = bool(cx.choose("have_start", 0, 1))
+    have_end = bool(cx.choose("have_end", 0, 1))
+    a = cx.int("start", 1, cx.p("maxlen")) if have_start else None
+    b = cx.int("end", 1, cx.p("maxlen")) if have_end else None
+    if a is not None:
+        cx.assume(a <= n)
+    if b is not None:
+        cx.assume(b <= n)
+    exclude = bool(cx.choose("exclude_common_ancestry", 0, 1))
+
+    class Graph:
+        @staticmethod
+        def iter_lefthand_ancestry(rev, stop=None):
+            i = rev.i
+            while T(i >= 1):
+                yield _Rev(cx, i)
+                i = i - 1
+
+    class Branch:
+        class _format:
+            stores_revno = staticmethod(lambda: True)
+
+        class repository:
+            get_graph = staticmethod(lambda: Graph)
+
+        @staticmethod
+        def last_revision_info():
+            return n, _Rev(cx, n)
+
+        @staticmethod
+        def last_revision():
+            return _Rev(cx, n)
+
+        @staticmethod
+        def revision_id_to_dotted_revno(rev):
+            return (rev.i,)
+    start = _Rev(cx, a) if a is not None else None
+    end = _Rev(cx, b) if b is not None else None
+    top = b if b is not None else n
+    raised = False
+    got = []
+    try:
+        for rev, revno, depth in L._linear_view_revisions(Branch, start, end, exclude_common_ancestry=exclude):
+            got.append((rev, revno, depth))
+    except L._StartNotLinearAncestor:
+        raised = True
+    if a is not None and T(a > top):
+        cx.require(raised, "a start revision that is not an ancestor of the end was accepted")
+        cx.cover("not_ancestor")
+    else:
+        cx.require(not raised, "start revision rejected although it is a left-hand ancestor of the end")
+        low = 1 if a is None else (a + 1 if exclude else a)
+        want = top - low + 1
+        cx.require(T(want == len(got)), "view lists %d revisions, the range holds %r" % (len(got), want))
+        for k, (rev, revno, depth) in enumerate(got):
+            cx.require(T(rev.i == top - k), "revision %d of the view is not revision number %r" % (k, top - k))
+            cx.require(revno is not None and T(rev.i == (int(revno) if not cx.sym else _int(revno))), "revision shown with another revision's number")
+            cx.require(depth == 0, "mainline revision shown with a merge depth")
+        if got:
+            cx.cover("listed")
+        if exclude and a is not None:
+            cx.cover("excluded_start")
+    cx.observe("n", (len(got), raised))
+
+
+def _int(s):
+    from symx import rt
+    return rt.m_int(s) if not isinstance(s, str) else int(s)
+
+
 def obligations(tier):
     q = tier == "quick"
     p = dict(n=6 if q else 8)
     to = 900 if q else 7200
     return [
+        Ob("linear_view", ob_linear_view, [LG], dict(maxlen=5 if q else 9), to, 2 if q else 1,
+           ["listed", "not_ancestor", "excluded_start"],
+           bounds="mainline of 1..%d revisions (symbolic), start / end anywhere on it or absent, common ancestry excluded or not"
+                  % (5 if q else 9)),
         Ob("reverse_by_depth", ob_reverse, [LG], p, to, 1, ["involution", "nested"],
            bounds="views of <= %(n)d revisions, symbolic depths constrained to merge-sorted profiles" % p),
         Ob("rebase_merge_depth", ob_rebase, [LG], dict(n=4 if q else 5), to, 1, ["rebased", "unchanged"],
